@@ -23,11 +23,16 @@ class TokResult:
     def in_domain(self):
         return not (self.empty_token or self.newline_in_quote or self.trailing_backslash or self.other_ws)
 
+    @property
+    def in_domain_apart_from_other_ws(self):
+        return not (self.empty_token or self.newline_in_quote or self.trailing_backslash)
 
-def tokenize(data):
+
+def tokenize(data, extra_seps=b""):
     """Default-mode splitting as the statement describes it: blanks and newlines separate, '..' and ".." are
     literal, backslash quotes the next byte, a token exists iff some byte or quote contributed to it, a token is
-    'hard' iff it is directly followed by a newline."""
+    'hard' iff it is directly followed by a newline. extra_seps: further bytes read as blanks (the statement says "blanks";
+    whether CR and FF count is a ctype question it leaves open - callers may accept either reading)."""
     r = TokResult()
     cur = bytearray()
     have = False
@@ -52,7 +57,7 @@ def tokenize(data):
         elif ch == b"\\":
             esc = True
             have = True
-        elif ch in (b" ", b"\t", b"\n"):
+        elif ch in (b" ", b"\t", b"\n") or c in extra_seps:
             if have:
                 if not cur:
                     r.empty_token = True
